@@ -1,3 +1,4 @@
+import TinysetModel.Proofs.RemoveSrc
 import TinysetModel.Proofs.ContainsSrc
 import TinysetModel.Proofs.Loops
 import TinysetModel.Proofs.ProgramTotal
@@ -281,6 +282,20 @@ theorem contains_is_the_source_u64 (e sz cap : Nat) (a : Tbl) (he : e < 2 ^ 64) 
     (∀ bits, bits = 0 ∨ bits > 64 → Gen.contains_big_64 e bits a = contains cfg64 (.heap sz cap bits a) e) :=
   ⟨contains_dense_64_eq e sz cap a, fun bits hb => contains_heap_64_eq e sz cap bits a he hb,
    fun bits hb => contains_big_64_eq e sz cap bits a hb⟩
+
+/-! ### `remove` of the model is `remove` of the current source on the three heap layouts -/
+
+/-- the `Dense`, `Heap` and `Big` arms of `SetU64::remove`, translated from the source on every run, return the answer,
+the member count and the slice that the model's `remove` returns — every `u64` element, every table, every generator
+state (the `Empty` arm is `false`, the inline arm is `collect()` of the remaining members) -/
+theorem remove_is_the_source_u64 {D : Type} (g : Rng D) (fuel e sz cap : Nat) (a : Tbl) (he : e < 2 ^ 64) (d : D) :
+    (cap = a.size → remove cfg64 g fuel (.heap sz cap 64 a) e d = armOut cap 64 d (Gen.remove_dense_64 e sz a)) ∧
+    (∀ bits, 0 < bits ∧ bits < 64 →
+      remove cfg64 g fuel (.heap sz cap bits a) e d = armOut cap bits d (Gen.remove_heap_64 e sz bits a)) ∧
+    (∀ bits, bits = 0 ∨ bits > 64 →
+      remove cfg64 g fuel (.heap sz cap bits a) e d = armOut cap bits d (Gen.remove_big_64 e sz bits a)) :=
+  ⟨fun hc => remove_dense_64_eq g fuel e sz cap a hc d, fun bits hb => remove_heap_64_eq g fuel e sz cap bits a he hb d,
+   fun bits hb => remove_big_64_eq g fuel e sz cap bits a hb d⟩
 
 end C01
 
